@@ -375,6 +375,7 @@ Definition text_ok (v : fval) (dt : Z) : bool :=
 
 Definition rr_supported (r : rr) : bool :=
   negb (rr_type r =? 255)
+  && match assoc_get ARES_RR_RAW_RR_TYPE (rr_fields r) with Some (FU16 t) => negb (t =? 255) | _ => true end
   && ((rr_type r =? 41) || class_isvalid (rr_class r) (rr_type r) false)
   && forallb (fun kv => text_ok (snd kv) (key_datatype (fst kv))
                         && (negb (fst kv =? ARES_RR_URI_TARGET)
